@@ -135,13 +135,15 @@ fn absorb(out: &mut WorkerOut, prop: &str, idx: u64, rs: u64, p: &Program, r: &R
     out.callbacks += r.stats.callbacks;
     if let Some(v) = r.violations.first() {
         let class = v.class();
-        if v.props.iter().any(|p| p == prop) {
-            let c = out.own_class_counts.entry(class).or_insert(0);
-            *c += 1;
-            if *c <= 3 {
-                out.own.push(Found { idx, run_seed: rs, violation: v.clone(), program: p.clone() });
-            }
-        } else {
+        // every violation is collected; one whose rule does not witness this check's property
+        // is "foreign": it is still reported (under the rule's own property), unless it is a
+        // known finding of that other property
+        let c = out.own_class_counts.entry(class.clone()).or_insert(0);
+        *c += 1;
+        if *c <= 3 {
+            out.own.push(Found { idx, run_seed: rs, violation: v.clone(), program: p.clone() });
+        }
+        if !v.props.iter().any(|p| p == prop) {
             *out.foreign_class_counts.entry(class).or_insert(0) += 1;
         }
     }
@@ -583,12 +585,20 @@ fn check(prop: &str, tier: &str) -> i32 {
             return 2;
         }
         let count = merged.own_class_counts.get(class).copied().unwrap_or(0);
+        let foreign = !v.props.iter().any(|p| p == prop);
+        // a violation found while exploring for this property but witnessing another one is
+        // reported under that property's id
+        let vprop = if foreign { v.props.first().cloned().unwrap_or_else(|| prop.to_string()) } else { prop.to_string() };
         if let Some(k) = match_known(&known, &v) {
-            known_lines.push(format!("KNOWN-FINDING: property={} {} [{}; {} runs; replay={}]", prop, k.description, k.id, count, fname));
-            viol_records.push(json!({"class": class, "known_finding": k.id, "runs": count, "replay": fname}));
+            if foreign {
+                println!("note: {} runs ended on known finding {} of property {} (its own check reports it)", count, k.id, vprop);
+            } else {
+                known_lines.push(format!("KNOWN-FINDING: property={} {} [{}; {} runs; replay={}]", prop, k.description, k.id, count, fname));
+            }
+            viol_records.push(json!({"class": class, "known_finding": k.id, "runs": count, "replay": fname, "property": vprop}));
         } else {
             n_viol += 1;
-            println!("VIOLATION property={} replay={}", prop, fname);
+            println!("VIOLATION property={} replay={}", vprop, fname);
             println!("  rule={} flags={:?} runs={} minimised {} -> {} ops", v.rule, v.flags, count, f.program.count_ops(), min.count_ops());
             println!("  {}", v.detail);
             viol_records.push(json!({"class": class, "runs": count, "replay": fname, "detail": v.detail}));
@@ -597,9 +607,7 @@ fn check(prop: &str, tier: &str) -> i32 {
     for l in &known_lines {
         println!("{}", l);
     }
-    for (c, n) in &merged.foreign_class_counts {
-        println!("note: {} runs ended early on a rule of another property ({}); that property's own check reports it", n, c);
-    }
+
     let wall = t0.elapsed().as_secs_f64();
     // ---- evidence
     let zero_probes: Vec<&str> = crate::gen::EXPECTED_PROBES.iter().copied().filter(|p| merged.probes.get(*p).copied().unwrap_or(0) == 0).collect();
